@@ -2910,7 +2910,10 @@ static Type *struct_union_decl(Token **rest, Token *tok) {
   if (tag && !equal(tok, "{")) {
     *rest = tok;
 
-    Type *ty2 = find_tag(tag);
+    // 'struct S;' declares a new type in the current scope even if a
+    // tag S is visible from an enclosing one (C11 6.7.2.3p7).
+    Type *ty2 = equal(tok, ";") ? hashmap_get2(&scope->tags, tag->loc, tag->len)
+                                : find_tag(tag);
     if (ty2)
       return ty2;
 
